@@ -191,8 +191,11 @@ def _roundtrip(r, s, tier):
         for mode in ("sympy", "str"):
             got = loaded[mode]
             cases.append({"id": len(cases), "kind": "file", "written": len(rows), "loaded": len(got), "P": P, "mode": mode})
+            forms = loaded.get(mode + "_form", [])
             for i, (w, g) in enumerate(zip(rows, got)):
-                flags = {"sameLen": len(w) == len(g), "nanKept": True, "keysEqual": True, "valuesEqual": True}
+                want_form = "dict" if mode == "sympy" else "str"
+                flags = {"sameLen": len(w) == len(g), "nanKept": True, "keysEqual": True, "valuesEqual": True,
+                         "formOK": i < len(forms) and all(f in ("nan", want_form) for f in forms[i])}
                 for we, ge in zip(w, g):
                     if we.strip() == "nan" or ge == "nan":
                         flags["nanKept"] &= (we.strip() == "nan" and ge == "nan")
